@@ -47,9 +47,11 @@ func main() {
 	c.SetRule("cases: (stress) one run of 2-16 concurrent appenders with unique self-describing payloads, readers, reopen and re-append; " +
 		"(interleave) one directed two-appender schedule where appender A is parked inside its page store until B has published k messages; " +
 		"(crash) one image of the queue directory taken after an individual store (payload bytes, index fields, appended-sequence) of an append; " +
-		"(gcroll) one round of GC() releasing acknowledged index pages while the appender rolls over to a new index page, read back in the same process and after reopen. " +
+		"(gcroll) one round of GC() releasing acknowledged index pages while the appender rolls over to a new index page, read back in the same process and after reopen; " +
+		"(putfault) one history in which one page-factory operation (acquisition of the next index / data page at a roll-over, sync of the page left, or one of the operations of NewQueue) fails once or twice, " +
+		"the failed Put / NewQueue is repeated, appends go on and every retained sequence is read back live and after reopen. " +
 		"Non-trivial = stress/interleave run in which a Put was called while another appender was inside its page store (overlap observed at the page wrapper), " +
-		"or an image strictly inside an append, or a reopen placed at a page boundary; distinct by (kind, index, image hash).")
+		"or an image strictly inside an append, or a reopen placed at a page boundary, or a fault history whose planned operation really failed; distinct by (kind, index, image hash / round).")
 	c.Assume("process-kill fault model: dirty MAP_SHARED pages survive; torn 8-byte stores are not modelled")
 	c.Assume("wall-clock is used only by the workload driver to give a parked appender up (never by the oracle)")
 	var jobs []job
@@ -77,6 +79,10 @@ func main() {
 	}
 	for i := 0; i < c.Pick(3, 12); i++ { // GC releasing acknowledged pages while appends roll over to a new index page
 		jobs = append(jobs, job{"gcroll", i, false})
+	}
+	nFault := c.Pick(8, 32) // transient page faults: a Put / NewQueue that fails once, is repeated, then everything is read back
+	for i := 0; i < nFault; i++ {
+		jobs = append(jobs, job{"putfault", i, false})
 	}
 	scratch := c.Scratch()
 	results := make([]*caseResult, len(jobs))
@@ -144,6 +150,24 @@ func main() {
 			for _, rep := range racefilter.Attributed(reports, []string{"pkg/queue/"}) {
 				c.Violation("C05/data-race/"+strings.Join(rep.TopFrames, "+"), fmt.Sprintf("stress %d: data race with top frames %v", j.idx, rep.TopFrames), rep.Text)
 			}
+		}
+	}
+	if nFault > 0 && c.Violations() == 0 {
+		// the fault family decides nothing unless the failing Puts / opens were really observed
+		for _, name := range []string{
+			"putfault.puts_failed_by_an_injected_fault.index-page-roll-over",
+			"putfault.puts_failed_by_an_injected_fault.data-page-roll-over",
+			"putfault.successful_puts_after_a_failed_put",
+			"putfault.read_backs_of_all_retained_sequences_after_a_failed_put",
+			"putfault.opens_failed_by_an_injected_fault.empty-directory",
+			"putfault.opens_failed_by_an_injected_fault.queue-with-messages",
+		} {
+			if c.Counter(name) == 0 {
+				c.Inconclusive("fault family: %s = 0 (the injected fault never made a Put / NewQueue fail)", name)
+			}
+		}
+		if n := c.Counter("putfault.histories_where_the_planned_fault_was_not_reached"); n > 0 {
+			c.Inconclusive("fault family: %d histories never reached the operation that was planned to fail", n)
 		}
 	}
 	c.Finish()
